@@ -35,8 +35,8 @@ prop("C02",
      "the induction along a topological order (paper); correctness of futures' fold/for_each_concurrent/join! and tokio channels")
 
 prop("C03",
-     [("S2", S.S2, K01, {}), ("S3", S.S3, K01, {}), ("S6", S.S6, K01, {}),
-      ("M1", lambda ctx: __import__("rules_run").C03_mut_lookup(ctx), K01, {})],
+     [("S1", S.S1, K01, {}), ("S2", S.S2, K01, {}), ("S3", S.S3, K01, {}), ("S5", S.S5, K01, {}),
+      ("S6", S.S6, K01, {"roles_filter": ("READY", "DONE")})],
      K01,
      "Decides S2 (each ready-send is the preload of all zero-count nodes or the release at count==0 after the decrement), "
      "S3 (counts only decrease by one per predecessor edge) and S6 (channel capacities are monotone in node_count so try_send never drops an id).",
@@ -45,7 +45,7 @@ prop("C03",
 
 prop("C04",
      [("T1", T.T1, K01, {}), ("T2", T.T2, K01, {}), ("T3", T.T3, K01, {"want_stream": False}),
-      ("S6", S.S6, K01, {}), ("S7", S.S7, K01, {})],
+      ("S6", S.S6, K01, {}), ("S7", S.S7, K01, {}), ("S1", S.S1, K01, {}), ("T4", T.T4, ("K1",), {})],
      K01,
      "Decides the release-obligation table T1 per public entry point (done-sender released on EMPTY / FINISHED / INTERRUPTED / FAILED; "
      "ready-sender released by the queuer), T2 (queuer and scheduler joined), T3 (wake-up typestate of every hand-written poll function "
@@ -55,7 +55,8 @@ prop("C04",
 
 prop("C05",
      [("T3", T.T3, K01, {"want_stream": True}), ("U1", T.U1, K01, {}), ("S2", S.S2, K01, {}), ("S3", S.S3, K01, {}),
-      ("S5", S.S5, K01, {}), ("S7", S.S7, K01, {}), ("S4", S.S4, K01, {})],
+      ("S5", S.S5, K01, {}), ("S7", S.S7, K01, {}), ("S4", S.S4, K01, {}),
+      ("S6", S.S6, K01, {"roles_filter": ("READY", "DONE")})],
      K01,
      "Decides T3 on the stream poll closure (no return that may be Pending after a Ready(Some) from the done receiver without re-polling it), "
      "U1 (end-of-stream bookkeeping: countdown from node_count decremented on Ready(Some), both senders released at 0 and for the empty graph, "
@@ -69,7 +70,8 @@ import rules_run as R
 K0 = ("K0",)
 
 prop("C01",
-     [("R1", B.R1, ("K0", "K3"), {}), ("R2", B.R2, ("K0",), {}), ("R3", B.R3, ("K0",), {}), ("R4", B.R4, ("K0",), {}),
+     [("R1", B.R1, ("K0", "K3"), {}), ("R2", B.R2, ("K0",), {"strict_order": False}),
+      ("R3", B.R3, ("K0",), {"parts": ("structures", "counts", "graph-field")}), ("R4", B.R4, ("K0",), {}),
       ("R5", B.R5, ("K0", "K3"), {}),
       ("S1", S.S1, K01, {}), ("S2", S.S2, K01, {}), ("S3", S.S3, K01, {}), ("S4", S.S4, K01, {}), ("S5", S.S5, K01, {})],
      ("K0", "K1", "K3"),
@@ -82,8 +84,9 @@ prop("C01",
      "that the pairwise scan + has_path_connecting joins every conflicting pair for every DAG (functional correctness of the scan), and the schedule-level behaviour")
 
 prop("C06",
-     [("W1", B.W1, K0, {}), ("W2", B.W2, K0, {}), ("R1", B.R1, K0, {}), ("S2", S.S2, K01, {}), ("S3", S.S3, K01, {}),
-      ("L1", lambda ctx: __import__("rules_run").L1(ctx), K01, {})],
+     [("W1", B.W1, K0, {}), ("W2", B.W2, K0, {}), ("R1", B.R1, K0, {}), ("W3", S.W3, K01, {}), ("S3", S.S3, K01, {}),
+      ("S6", S.S6, K01, {"roles_filter": ("READY", "DONE")}),
+      ("W4", lambda ctx: __import__("rules_run").W4(ctx), K01, {})],
      K01,
      "Decides W4 = L1 (limit forwarded unchanged, so None gates nothing), W1 (the only edge-adding call on the user's graph reachable from build() is update_edge with the constant Edge::Data, "
      "no other node/edge-set mutator), W2 (the comparison pairs feeding its guard contain no read x read pair and no same-function pair; "
@@ -93,8 +96,8 @@ prop("C06",
      "the quiescence statement over runs (whenever idle, everything runnable was started)")
 
 prop("C11",
-     [("R3", B.R3, K0, {}), ("W1", B.W1, K0, {}), ("B3", B.B3, K0, {}), ("R2", B.R2, K0, {}), ("R4", B.R4, K0, {}),
-      ("R1", B.R1, K0, {})],
+     [("R3", B.R3, K0, {"parts": ("graph-field",)}), ("W1", B.W1, K0, {}), ("B3", B.B3, K0, {}), ("R2", B.R2, K0, {"strict_order": True}),
+      ("R1", B.R1, K0, {}), ("K", B.C13_rules, K0, {})],
      K0,
      "Decides B1 (phase order: ranks, then augmentation, then counts and structure copies, all on the same graph which becomes FnGraph.graph), "
      "B2 (no add_node/remove/clear/retain reaches the user's Dag from build()), B3 (the only added edge is Edge::Data, control dependent on "
@@ -113,7 +116,7 @@ prop("C12",
      "non-redundancy of Data edges and the exact tie-break outcome as functions of the input")
 
 prop("C13",
-     [("K", B.C13_rules, K0, {})],
+     [("K", B.C13_rules, K0, {}), ("R3", B.R3, K0, {"parts": ("ranks",)})],
      K0,
      "Decides K1 (ranks start as Rank(0) x node_count), K2 (the work queue is seeded with exactly the parent-less nodes), K3 (every store to "
      "ranks[child] is ranks[parent]+1 - constant 1 through Rank: Add<usize>, whose body adds the fields - merged by max or guarded by candidate > existing), "
@@ -142,7 +145,8 @@ prop("C18",
 
 
 prop("C07",
-     [("F", R.F_rules, K01, {}), ("S6", S.S6, K01, {}), ("T1", T.T1, K01, {"kinds": ("FAILED",)})],
+     [("F", R.F_rules, K01, {}), ("S6", S.S6, K01, {"roles_filter": ("RESULT",)}), ("T1", T.T1, K01, {"kinds": ("FAILED",)}),
+      ("O4", R.O4, K01, {})],
      K01,
      "Decides F1 (on the Err arm of the user future exactly one awaited send on the RESULT channel carries that error), F2 (from the Err arm every "
      "path to the done-send passes through the release of the done-sender), F3 (RESULT capacity monotone in node_count; its receiver is drained only "
@@ -152,7 +156,7 @@ prop("C07",
      "that already started futures complete (contract of for_each_concurrent, trusted)")
 
 prop("C08",
-     [("I", R.I_rules, ("K1",), {}), ("S5", S.S5, ("K1",), {}), ("T1", T.T1, ("K1",), {"kinds": ("INTERRUPTED",)})],
+     [("I", R.I_rules, ("K1",), {}), ("S5", S.S5, ("K1",), {}), ("T1", T.T1, ("K1",), {"kinds": ("INTERRUPTED",)}), ("T4", T.T4, ("K1",), {})],
      ("K1",),
      "Decides the wiring only: I1 (opts.interruptibility_state and interrupted_next_item_include flow unchanged from each public parameter - or from "
      "StreamOpts::default() - to the ready-stream wrapper; stream_with_interruptible passes the state to interruptible_with, stream/stream_with do not wrap), "
@@ -162,7 +166,7 @@ prop("C08",
      "THE NUMERIC BOUNDS THEMSELVES (<= 1 / <= n more, pending-signal cases, PollNextN(0)): they are the state machine of interruptible::InterruptibleStream in another crate; fn_graph only wires it")
 
 prop("C09",
-     [("O", R.O_rules, K01, {}), ("S5", S.S5, K01, {})],
+     [("O", R.O_rules, K01, {}), ("O3b", R.O3b, K01, {}), ("S5", S.S5, K01, {}), ("I2", R.I2_rule, ("K1",), {})],
      K01,
      "Decides O1 (the only pushes to fn_ids_processed happen in the ready-stream adaptors, with the id dequeued from READY, once per dequeue, not in per-item bodies), "
      "O2 (StreamOutcome::new stores processed/state unchanged and computes not-processed as the node-order filter !processed.contains(id) over all nodes of the walked structure; "
@@ -172,7 +176,7 @@ prop("C09",
      "the order claim beyond `push happens at dequeue`")
 
 prop("C10",
-     [("L1", R.L1, K01, {}), ("L2", R.L2, K01, {})],
+     [("L1", R.L1, K01, {}), ("L2", R.L2, K01, {}), ("L3", R.L3, K01, {})],
      K01,
      "Decides L1 (`limit` flows unchanged from each of the 12 public parameters into StreamExt::for_each_concurrent's limit argument, whose stream is the READY stream) "
      "and L2 (fold/try_fold paths are driven by StreamExt::fold / TryStreamExt::try_fold and return their state only after the user future's Ready arm).",
@@ -180,7 +184,7 @@ prop("C10",
      "the in-flight count of for_each_concurrent (futures' contract); `any limit >= 1 completes` beyond S4")
 
 prop("C14",
-     [("Q", R.Q_rules, ("K0", "K4"), {})],
+     [("Q", R.Q_rules, ("K0", "K4"), {}), ("R3", B.R3, ("K0", "K4"), {"parts": ("structures",)}), ("R4", B.R4, ("K0", "K4"), {})],
      ("K0", "K4"),
      "Decides Q1 (each of iter, iter_rev, toposort, map, fold, try_fold, for_each, try_for_each creates and steps Topo with the same graph), Q2 (forward APIs walk a "
      "forward-role graph, iter_rev the reversed structure; roles from build()), Q3 (the id produced by Topo indexes self.graph unchanged), Q4 (try_fold/try_for_each return the "
@@ -226,7 +230,7 @@ prop("C20",
      "Each run therefore satisfies C01-C10 exactly as if alone: its behaviour depends only on immutable graph fields and its own allocations.",
      "type-level deep-immutability walk + effect inventory over all MIR bodies + borrow-checker / auto-trait witnesses",
      "tokio's cooperative budget thread-local only adds self-woken Pendings; user F interior mutability is the user's")
-PROPS["C20"]["witnesses"] = [("c15", [], ""), ("c15", ["interruptible"], ""), ("c19", [], "")]
+PROPS["C20"]["witnesses"] = [("c15", [], ""), ("c15", ["interruptible"], "")]
 
 prop("C19",
      [],
